@@ -265,7 +265,37 @@ func TestC15(t *testing.T) {
 		Assumptions: []string{"exact kernel (internal/exact)", "float family: a returned point may sit on the boundary / within 1e-9 x magnitude of a line because the geometry itself is rounded (counted)"},
 		Gen:         c15Gen,
 		Check:       c15Check,
+		Enumerate:   c15Enumerate,
 	})
+}
+
+// c15Enumerate: MultiLineStrings in which one end point is shared by many
+// lines (a star of k spokes from one hub; k around 128 and 256): the hub
+// belongs to the boundary exactly when k is odd.
+func c15Enumerate(cx *h.Ctx, yield func(C15Case)) []string {
+	for _, k := range []int{64, 127, 128, 129, 130, 255, 256, 257} {
+		for variant := 0; variant < 3; variant++ {
+			var lines []gm.G
+			for i := 0; i < k; i++ {
+				// distinct primitive directions: (i+1, 1) in alternating quadrants
+				x, y := float64(i+1), 1.0
+				if i%2 == 1 {
+					x, y = -x, -1
+				}
+				co := gm.Fs(5, 7, 5+x, 7+y)
+				if variant == 1 && i%3 == 0 {
+					co = gm.Fs(5+x, 7+y, 5, 7) // some spokes run inwards
+				}
+				lines = append(lines, gm.G{T: gm.LineString, Co: co})
+			}
+			g := gm.G{T: gm.MultiLineString, Mem: lines}
+			if variant == 2 {
+				g = gm.G{T: gm.GeometryCollection, Mem: []gm.G{{T: gm.Point, Co: gm.Fs(-900, -900)}, g}}
+			}
+			yield(C15Case{OneCase{G: g, Family: "lattice", Shape: "star", Aff: [6]float64{1, 0, 0, 0, 1, 0}}})
+		}
+	}
+	return []string{"stars of 64, 127..130 and 255..257 lines sharing one end point (MultiLineString, spokes in either direction, as a collection member)"}
 }
 
 var _ = rapid.Bool
